@@ -128,9 +128,9 @@ theorem shared_split_closed (n : Nat) (c : Cur) :
   by_cases h : c.len < n <;> simp [h, adv]
 
 theorem RR.ext_len {s : RCur Cur} {t : Cur} (h : RR b b' s t) :
-    t.off = s.rdr.off ∧ t.len = s.rdr.len ∧ t.det = s.rdr.det ∧ t.sec = b' := by
+    t.off = s.rdr.off ∧ t.len = s.rdr.len ∧ t.sec = b' := by
   obtain ⟨rfl, _, _, _⟩ := h
-  exact ⟨rfl, rfl, rfl, rfl⟩
+  exact ⟨rfl, rfl, rfl⟩
 
 /-- a primitive on a reader with window `c` is compatible with the relocation set -/
 theorem prim_step (hf : Facts e ρ b b') (m : Mode) (valid : Bytes → Bool) (lossy : Bytes → Bytes)
